@@ -22,6 +22,10 @@ ASSUMPTIONS = [
 NONTRIVIAL_FLOOR = {"quick": 300, "thorough": 3000}
 
 
+# thorough tier: coverage-guided (atheris) drive of the same generator and oracle: kind -> (shards, cases per shard)
+FUZZ = {"machine": (16, 3000)}
+
+
 def plan(tier):
     return [("machine", 16, (1600 if tier == "quick" else 32000) // 16)]
 
